@@ -109,6 +109,21 @@ def builtinSig (name : Str) : Option BSig :=
   else if name = lit "trim" then some ⟨[isStrT, isStrT], none, some .str⟩
   else if name = lit "replace" then some ⟨[isStrT, isStrT, isStrT], none, some .str⟩
   else if name = lit "str2num" then some ⟨[isStrT], none, some .num⟩
+  else if name = lit "move" ∨ name = lit "line" ∨ name = lit "rect" then some ⟨[isNumT, isNumT], none, none⟩
+  else if name = lit "circle" ∨ name = lit "width" then some ⟨[isNumT], none, none⟩
+  else if name = lit "color" ∨ name = lit "colour" ∨ name = lit "stroke" ∨ name = lit "fill" ∨ name = lit "linecap" ∨
+      name = lit "text" then some ⟨[isStrT], none, none⟩
+  else if name = lit "clear" then some ⟨[], some isStrT, none⟩
+  else if name = lit "grid" then some ⟨[], none, none⟩
+  else if name = lit "gridn" then some ⟨[isNumT, isStrT], none, none⟩
+  else if name = lit "dash" ∨ name = lit "ellipse" then some ⟨[], some isNumT, none⟩
+  else if name = lit "hsl" then some ⟨[], some isNumT, some .str⟩
+  else if name = lit "printf" then some ⟨[isAnyT], some (fun _ => true), none⟩
+  else if name = lit "sprintf" then some ⟨[isAnyT], some (fun _ => true), some .str⟩
+  else if name = lit "repr" then some ⟨[], some (fun _ => true), some .str⟩
+  else if name = lit "split" then some ⟨[isStrT, isStrT], none, some (.arr .str)⟩
+  else if name = lit "rand" then some ⟨[isNumT], none, some .num⟩
+  else if name = lit "rand1" then some ⟨[], none, some .num⟩
   else none
 
 /-- the signature of a user-defined function: parameter types and result type (`none`: no result) -/
@@ -164,15 +179,16 @@ inductive Typed (Φ : FEnv) (G : Env) : Expr F → Ty → Prop
 
 /-- library functions that answer with one number / one string -/
 def numFns : List String := ["math.mod", "math.abs", "math.floor", "math.ceil", "math.round", "math.log", "math.sqrt",
-  "math.sin", "math.cos", "math.min", "math.max", "math.pow", "math.atan2"]
-def strFns : List String := ["upper", "lower", "trim", "replace"]
+  "math.sin", "math.cos", "math.min", "math.max", "math.pow", "math.atan2", "rand"]
+def strFns : List String := ["upper", "lower", "trim", "replace", "hslfmt"]
 
 /-- the Go library behind `%`, the math and the string built-ins answers with a value of the expected
 kind (the oracle table of the harness does: it is filled by calling the real library) -/
 def ExtOk (ext : Ext F) : Prop :=
   (∀ f, f ∈ numFns → ∀ args r, ext.call f args = some r → ∃ v, r = [XArg.num v]) ∧
   (∀ f, f ∈ strFns → ∀ args r, ext.call f args = some r → ∃ s, r = [XArg.str s]) ∧
-  (∀ args r, ext.call "parsefloat" args = some r → ∃ n b, r = [XArg.num n, XArg.bool b])
+  (∀ args r, ext.call "parsefloat" args = some r → ∃ n b, r = [XArg.num n, XArg.bool b]) ∧
+  (∀ args r, ext.call "split" args = some r → ∃ l, r = [XArg.strs l])
 
 /-! ### statements -/
 
